@@ -17,13 +17,17 @@ from common import Suite, Violation, scratch_dir
 from jadeenv import jname, jid
 
 MODES_BY_PROP = {
-    "C01": ["plain", "plain", "plain", "busy"], "C02": ["plain", "plain", "busy", "local"], "C03": ["plain", "plain", "busy", "local"],
+    "C01": ["plain", "plain", "plain", "busy", "resubmit"], "C02": ["plain", "plain", "busy", "local", "resubmit"],
+    "C03": ["plain", "plain", "busy", "local"],
     "C04": ["plain", "plain", "busy", "local"], "C05": ["plain", "busy", "plain"], "C06": ["plain", "busy", "local"],
     "C09": ["plain", "busy", "cancel"], "C11": ["faults"], "C12": ["batchfaults"], "C14": ["cancel"],
-    "C16": ["hooks", "hooks", "hookslocal"], "C13": ["plain"],
+    "C16": ["hooks", "hooks", "hookslocal"], "C13": ["resubmit"], "C07": ["resubmit"],
 }
 MAX_USER_TRYSUBMITS = 10
 MAX_OPS = 1500
+# modes in which the fake scheduler may list a live batch under a state word outside JADE's table
+ODD_STATE_MODES = ("plain", "busy", "cancel", "resubmit")
+SLOWEXT_MODES = ("plain", "busy", "batchfaults")
 
 
 # ----------------------------------------------------------------------------------------------
@@ -54,6 +58,83 @@ def reference(sc):
 
 def acyclic(sc):
     return all(o[0] != "missing" for o in reference(sc).values())
+
+
+# ----------------------------------------------------------------------------------------------
+# resubmission epochs (mode `resubmit`): reference semantics of `resubmit-jobs`, independent of the code
+# ----------------------------------------------------------------------------------------------
+def _bad(o):
+    return o[0] == "canceled" or (o[0] == "finished" and o[1] != 0)
+
+
+def resubmit_selection(prev, failed, missing, successful):
+    """jobs selected by the flags of resubmit-jobs, given each job's recorded outcome"""
+    sel = set()
+    for k, o in prev.items():
+        if (o[0] == "missing" and missing) or (o[0] != "missing" and _bad(o) and failed) or \
+                (o[0] == "finished" and o[1] == 0 and successful):
+            sel.add(k)
+    return sel
+
+
+def rerun_closure(sc, sel):
+    """the selected jobs plus every job that transitively depends on one of them"""
+    R = set(sel)
+    grew = True
+    while grew:
+        grew = False
+        for j in sc["jobs"]:
+            if j["id"] not in R and any(b in R for b in j["blockers"]):
+                R.add(j["id"])
+                grew = True
+    return R
+
+
+def epoch_rc(j, epoch):
+    rcs = j.get("rcs")
+    return rcs[min(epoch, len(rcs) - 1)] if rcs else j["rc"]
+
+
+def reference_epoch(sc, prev, rerun, epoch):
+    """outcomes after resubmission epoch `epoch`: jobs outside `rerun` keep their recorded outcome `prev`, the rerun
+    jobs are evaluated in topological order with this epoch's exit codes (by `reference`, on the graph in which the
+    kept jobs are constants)"""
+    jobs2 = []
+    for j in sc["jobs"]:
+        k = j["id"]
+        if k in rerun:
+            jobs2.append(dict(j, rc=epoch_rc(j, epoch)))
+        elif prev[k][0] == "missing":
+            jobs2.append(dict(j, blockers=[k]))              # never gets an outcome
+        else:
+            jobs2.append(dict(j, blockers=[], cancel=False, rc=prev[k][1] if prev[k][0] == "finished" else 1))
+    out = reference(dict(sc, jobs=jobs2))
+    for k, o in prev.items():
+        if k not in rerun:
+            out[k] = o
+    return out
+
+
+def gen_resubmit_plan(rng, sc):
+    """what the user does after the submission completed: up to two `resubmit-jobs`, possibly with an edited copy
+    of the submission groups (`-s`); exit codes of the reruns; whether a batch is lost in the first run (so that
+    jobs are missing and others were never submitted)"""
+    times = rng.choice([1, 1, 2])
+    for j in sc["jobs"]:
+        j["rcs"] = [j["rc"]] + [0 if rng.random() < .7 else rng.randint(1, 255) for _ in range(times)]
+    regroups = []
+    for _ in range(times):
+        gs = []
+        for gi, g in enumerate(sc["groups"]):
+            maxest = max([j["est"] for j in sc["jobs"] if j["group"] == gi] or [1])
+            walls = [w for w in (1800, 3600, 6000, 14400) if w >= maxest * 60]      # estimates stay valid (C07 assumption)
+            tb = rng.random() < .35
+            gs.append({"batchSize": rng.choice([1, 1, 2, 2, 3, 4]), "timeBased": tb, "tryAdd": rng.random() < .6,
+                       "wallSec": rng.choice(walls), "procs": rng.choice([1, 2, 3]) if (tb or rng.random() < .7) else None,
+                       "dryRun": False, "partition": rng.choice([None, "short", "debug"])})
+        regroups.append({"groups": gs, "maxNodes": rng.choice([1, 2, 2, 3, None])})
+    sc["regroups"] = regroups
+    sc["resub"] = {"times": times, "regroupProb": .4, "lose": rng.random() < .25}
 
 
 # ----------------------------------------------------------------------------------------------
@@ -93,6 +174,12 @@ def gen_scenario(rng, mode):
         for j in jobs:
             j["group"] = 0
         sc["groups"][0]["procs"] = rng.choice([None, 1, 2, 3])
+    if mode in ODD_STATE_MODES and rng.random() < .6:
+        sc["oddStates"] = True
+    if mode in ("plain", "busy") and rng.random() < .3:
+        sc["sharedHosts"] = True          # non-exclusive nodes: two batches of the submission on one host
+    if mode == "resubmit":
+        gen_resubmit_plan(rng, sc)
     return sc
 
 
@@ -117,13 +204,17 @@ class Run:
         self.quiescent_checks = []
         self.fault_done = False
         self.fault_kind = None
-        self.style = self.rng.choice(["uniform", "nodes", "submitters", "bursty"])
+        # slowext: scheduler commands take long - everybody else progresses while a process waits for squeue/sbatch/scancel
+        self.style = self.rng.choice(["uniform", "nodes", "submitters", "bursty"] + (["slowext"] if self.mode in SLOWEXT_MODES else []))
         self.ref = reference(self.sc)
         self.workers = {}
         self.cancel_info = None
         self.n_events_seen = 0
         self.hook_events = []
         self.last = None
+        self.resubs = []          # resubmit-jobs invocations: what the user asked for and what must follow from it
+        self.epoch_info = [{"R": set(j["id"] for j in self.sc["jobs"]), "prev": {}, "expected": self.ref, "groups": None}]
+        self.lost_done = False
 
     def bad(self, prop, key, msg):
         self.checks.append((prop, key, msg))
@@ -141,6 +232,8 @@ class Run:
                     w = 4.0
                 if self.style == "bursty" and self.last == ("step", p.pid):
                     w = 6.0
+                if self.style == "slowext" and p.at[0] == "EXT" and str(p.at[1]).split(" ")[0] in ("squeue", "sbatch", "scancel"):
+                    w = 0.1
                 m.append((w, ["step", p.pid]))
         for h, b in vc.slurm.items():
             if b["state"] == "pending":
@@ -161,6 +254,10 @@ class Run:
             vc.start_batch(op[1])
         elif k == "jobexit":
             vc.job_exit(vc.jobprocs[op[1]])
+        elif k == "spawn" and op[1] == "resubmit":
+            self.begin_resubmit(op)
+        elif k == "oddstate":
+            vc.set_odd(op[1], op[2])
         elif k == "spawn":
             vc.step_no += 1
             vc.spawn_user(op[1], *op[2:])
@@ -198,7 +295,9 @@ class Run:
             elif kind == "sbatch" and e[4] is not None:
                 self.on_sbatch(e)
         # status snapshot whenever the cluster lock is free
-        if not os.path.exists(vc.cluster_lock()) and not self.sc.get("local"):
+        if self.mode == "resubmit" and any(p.kind == "resubmit" and p.state == "ready" for p in vc.procs.values()):
+            self.resubmitted_since_prev = True
+        elif not os.path.exists(vc.cluster_lock()) and not self.sc.get("local"):
             st = vc.read_status()
             if st is not None and st != self.prev_status:
                 self.check_status(st)
@@ -232,13 +331,15 @@ class Run:
             b = next((x for x in self.vc.slurm.values() if x["batch"] == batch), None)
             if b is None or not b["jobs"]:
                 return None
-            g = sc["groups"][sc["jobs"][b["jobs"][0][0]]["group"]]
+            g = self.groups_in_force()[sc["jobs"][b["jobs"][0][0]]["group"]]
             nj = len(b["jobs"])
             cpus = sc.get("cpus", 4)
         return min(nj, g["procs"] if g.get("procs") is not None else cpus)
 
     def on_sbatch(self, e):
-        mn = self.sc["maxNodes"]
+        if self.mode == "resubmit":
+            self.check_batch_against_group(e)
+        mn = self.max_nodes_in_force()
         if mn is None:
             return
         active = sum(1 for b in self.vc.slurm.values() if b["state"] in ("pending", "running"))
@@ -292,6 +393,7 @@ class Run:
         self.snaps.append(st)
 
     resubmitted_since_prev = False
+    user_busy = 0
 
     # ------------------------------------------------------------------ schedule
     def choose(self, menu):
@@ -306,11 +408,27 @@ class Run:
     def maybe_extra(self):
         """mode-specific user commands / faults injected with small probability at each op"""
         vc, rng, mode = self.vc, self.rng, self.mode
+        if self.sc.get("oddStates"):
+            x = self.maybe_odd_state()
+            if x is not None:
+                return x
+        if mode == "resubmit" and self.sc.get("resub", {}).get("lose") and not self.resubs and not self.lost_done and rng.random() < .02:
+            c = [h for h, b in vc.slurm.items() if b["state"] == "running" and not vc.procs[b["node"]].holding
+                 and vc.procs[b["node"]].state == "ready" and vc.procs[b["node"]].at[0] != "WAIT"]
+            c += [h for h, b in vc.slurm.items() if b["state"] == "pending"]
+            if c:
+                self.lost_done = True
+                return ["nodelost", rng.choice(c)]
         # user commands are issued against an existing submission: only after submit-jobs has returned
         if vc.procs and vc.procs[1].state == "ready" and mode in ("busy", "cancel"):
             return None
         if mode == "busy" and rng.random() < .04:
             return ["spawn", rng.choice(["trysubmit", "trysubmit", "showstatus"])]
+        if mode == "busy" and rng.random() < .08 and self.user_busy < 6 and \
+                [b["state"] for b in vc.slurm.values() if b["state"] in ("pending", "running")] == ["running"]:
+            # the user looks again when the run is nearly over: a round concurrent with the end of the last batch
+            self.user_busy += 1
+            return ["spawn", "trysubmit"]
         if mode == "busy" and rng.random() < .02:
             return ["noise"]
         if mode == "cancel" and self.cancel_info is None and rng.random() < .05 and len(vc.trace) > 3:
@@ -318,6 +436,11 @@ class Run:
             return ["spawn", "cancel", rng.random() < .6]
         if mode == "cancel" and self.cancel_info is not None and rng.random() < .03:
             return ["spawn", rng.choice(["trysubmit", "showstatus"])]
+        if mode == "batchfaults" and vc.procs and vc.procs[1].state != "ready" and self.user_busy < 4 and rng.random() < \
+                (.08 if [b["state"] for b in vc.slurm.values() if b["state"] in ("pending", "running")] == ["running"] else .01):
+            # the user may look at any time (try-submit-jobs is what show-status offers), also while batches die
+            self.user_busy += 1
+            return ["spawn", "trysubmit"]
         if mode == "batchfaults":
             r = rng.random()
             if r < .05:
@@ -332,6 +455,14 @@ class Run:
                     return ["nodelost", rng.choice(c)]
         if mode == "faults" and not self.fault_done:
             subs = [p for p in vc.live() if p.kind in ("submit", "trysubmit") and vc.enabled(p.pid)]
+            nested = [p for p in subs if p.holding and p.at[0] == "ACQ"]
+            if nested and rng.random() < .25:
+                # about to enter a section under two locks (moving a node's results into the consolidated file):
+                # the process dies / the filesystem fails at one of the first mutations inside it
+                p = rng.choice(nested)
+                self.fault_done = True
+                self.fault_kind = rng.choice(["killin", "failwrite"])
+                return [self.fault_kind, p.pid, rng.randrange(0, 3)]
             if subs and rng.random() < .12:
                 p = rng.choice(subs)
                 self.fault_done = True
@@ -383,6 +514,10 @@ class Run:
                     continue
                 if op[0] == "jobexit" and (op[1] >= len(self.vc.jobprocs) or self.vc.jobprocs[op[1]].exited is not None):
                     continue
+                if op[0] == "oddstate" and self.vc.slurm.get(op[1], {}).get("state") not in ("pending", "running"):
+                    continue
+                if op[0] == "nodelost" and self.vc.slurm.get(op[1], {}).get("state") not in ("pending", "running"):
+                    continue
                 if op[0] in ("kill", "killin", "failext", "failwrite", "locktimeout") and (op[1] not in self.vc.procs or self.vc.procs[op[1]].state != "ready"):
                     continue
                 self.apply(list(op))
@@ -392,7 +527,7 @@ class Run:
 
     def explore(self):
         self.apply(["spawn", "submit", True] if self.sc.get("local") else ["spawn", "submit"])
-        while len(self.ops) < MAX_OPS:
+        while len(self.ops) < self.max_ops():
             extra = self.maybe_extra()
             if extra is not None:
                 self.apply(extra)
@@ -406,7 +541,7 @@ class Run:
 
     def drain(self):
         """after an explicit op list: run to quiescence with the documented recovery"""
-        while len(self.ops) < MAX_OPS:
+        while len(self.ops) < self.max_ops():
             menu = self.menu()
             if not menu:
                 if not self.at_quiescence():
@@ -424,7 +559,7 @@ class Run:
         if st is None:
             return False
         if st["complete"]:
-            return False
+            return self.mode == "resubmit" and not blocked and self.next_resubmit(st)
         if blocked:
             # live processes but nothing enabled: somebody waits for a lock marker nobody will release
             self.deadlocked = True
@@ -433,7 +568,7 @@ class Run:
                 return True
             # give the user a chance anyway (their process will block too) - stop instead
             return False
-        if self.user_trysubmits >= MAX_USER_TRYSUBMITS:
+        if self.user_trysubmits >= MAX_USER_TRYSUBMITS * len(self.epoch_info):      # per (resubmission) epoch
             return False
         self.user_trysubmits += 1
         before = (sum(1 for e in vc.trace if e[1] == "sbatch"), st["complete"])
@@ -451,6 +586,8 @@ class Run:
         jobs = {j["id"]: j for j in sc["jobs"]}
         faulty = mode in ("faults", "batchfaults")
         P1 = "C11" if mode == "faults" else "C01"
+        if mode == "resubmit":
+            return self.final_checks_resubmit()       # epoch-aware versions of the checks below
         # ---- placements and starts (C01 / C11)
         placed = {}
         by_idx = {}
@@ -481,6 +618,12 @@ class Run:
                 self.bad(P1, "job.started_twice", f"job {k} was started {c} times")
                 if P1 != "C01":
                     self.bad("C01", "job.started_twice", f"job {k} was started {c} times")
+        if not faulty:
+            # a job canceled by a submitter round (it was not yet submitted: the row goes straight into the consolidated
+            # file) is never handed to the HPC; a job canceled on its node is in that node's batch and nowhere else (C01)
+            both = sorted({jid(e[4][0]) for e in tr if e[1] == "row" and e[4][2] == "canceled" and e[3] == "processed_results.csv"} & set(placed))
+            if both:
+                self.bad("C01", "job.canceled_and_placed", f"jobs {both} were canceled by a submitter before submission and also handed to the HPC in a batch")
         rows = vc.read_rows()
         # ---- rows: never lost (C11/C08 flavour), canceled rows (C04)
         written = [e for e in tr if e[1] == "row"]
@@ -546,6 +689,9 @@ class Run:
                     self.bad("C03", "progress.incomplete", "the fault-free run did not complete")
             elif results is not None:
                 self.check_final_results(results, "C03")
+                if results["missing_jobs"] and mc:
+                    self.bad("C05", "complete.jobs_without_result", f"the completion flag was set in a fault-free run while jobs "
+                             f"{sorted(jid(m) for m in results['missing_jobs'])} have no result")
         if plain and not self.dry() and not sc.get("local"):
             for q in self.quiescent_checks:
                 after_sb = sum(1 for e in tr if e[1] == "sbatch")
@@ -777,6 +923,333 @@ class Run:
             return None
         return f"g{self.sc['jobs'][x['jobs'][0][0]]['group']}"
 
+    # ------------------------------------------------------------------ odd scheduler state words
+    def maybe_odd_state(self):
+        """real SLURM lists live batches under words JADE does not know (SUSPENDED, REQUEUED, RESIZING, ...):
+        now and then a pending/running batch is listed under such a word for a while, then under its normal word"""
+        vc, rng = self.vc, self.rng
+        r = rng.random()
+        if r < .05:
+            c = [h for h, b in vc.slurm.items() if b["state"] in ("pending", "running") and not b.get("odd")]
+            if c:
+                h = rng.choice(c)
+                return ["oddstate", h, rng.choice(vc.ODD_PENDING if vc.slurm[h]["state"] == "pending" else vc.ODD_RUNNING)]
+        elif r < .08:
+            c = [h for h, b in vc.slurm.items() if b["state"] in ("pending", "running") and b.get("odd")]
+            if c:
+                return ["oddstate", rng.choice(c), None]
+        return None
+
+    # ------------------------------------------------------------------ resubmission epochs (mode `resubmit`)
+    def max_ops(self):
+        return MAX_OPS * (1 + self.sc.get("resub", {}).get("times", 0)) if self.mode == "resubmit" else MAX_OPS
+
+    def groups_in_force(self):
+        """submission-group parameters in force: the configured ones until a `resubmit-jobs -s FILE` replaced them"""
+        g = self.epoch_info[-1]["groups"]
+        return g["groups"] if g else self.sc["groups"]
+
+    def max_nodes_in_force(self):
+        g = self.epoch_info[-1]["groups"]
+        return g["maxNodes"] if g else self.sc["maxNodes"]
+
+    def outcomes_on_disk(self):
+        out = {j["id"]: ("missing", None) for j in self.sc["jobs"]}
+        for r in self.vc.read_rows():
+            out[r[1]] = ("canceled", 1) if r[3] == "canceled" else ("finished", r[2])
+        return out
+
+    def row_times(self):
+        """job -> (exec time, completion time) of its recorded result, as numbers"""
+        from vcluster import REAL_OPEN
+        out = {}
+        files = [Path(self.vc.out) / "processed_results.csv"] + sorted((Path(self.vc.out) / "results").glob("results_batch_*.csv"))
+        for f in files:
+            try:
+                lines = REAL_OPEN(f).read().split("\n")
+            except OSError:
+                continue
+            for l in lines[1:]:
+                parts = l.strip().split(",")
+                if len(parts) >= 5:
+                    try:
+                        out[jid(parts[0])] = (float(parts[3]), float(parts[4]))
+                    except ValueError:
+                        out[jid(parts[0])] = (parts[3], parts[4])
+        return out
+
+    def load_results(self):
+        try:
+            from vcluster import REAL_OPEN
+            return json.load(REAL_OPEN(os.path.join(self.vc.out, "results.json")))
+        except Exception:
+            return None
+
+    def next_resubmit(self, st):
+        """the submission is complete and idle: the user reruns jobs with `resubmit-jobs` (flags as the CLI allows)"""
+        sc, rng = self.sc, self.rng
+        plan = sc.get("resub") or {}
+        if len(self.resubs) >= plan.get("times", 0):
+            return False
+        failed, missing, successful = rng.random() < .8, rng.random() < .7, rng.random() < .25
+        gi = len(self.resubs) if rng.random() < plan.get("regroupProb", .4) else None
+        prev = self.outcomes_on_disk()
+        jobs = {j["id"]: j for j in sc["jobs"]}
+        if any(o[0] == "missing" for o in prev.values()):
+            # --no-missing while jobs have no result: documented, unfixed defects of resubmit-jobs (known_findings.json,
+            # C13 resubmit.no_missing.*; resubmit suite) - not the subject of this mode
+            missing = True
+        R = rerun_closure(sc, resubmit_selection(prev, failed, missing, successful))
+        if not R and rng.random() < .8:
+            successful = True
+            R = rerun_closure(sc, resubmit_selection(prev, failed, missing, successful))
+        if not failed and any(jobs[k]["cancel"] and any(b not in R and _bad(prev[b]) for b in jobs[k]["blockers"]) for k in R):
+            # a flagged job would be rerun while a failed blocker of it is not: JADE then runs it (it only looks at
+            # blockers that are rerun) - reported separately, not generated here
+            failed = True
+        self.apply(["spawn", "resubmit", failed, missing, successful, gi])
+        return True
+
+    def begin_resubmit(self, op):
+        """bookkeeping of one `resubmit-jobs` invocation (also on replay): close the epoch that just ended, work out
+        from the flags and the recorded outcomes what must be rerun, then start the real command"""
+        vc, sc = self.vc, self.sc
+        failed, missing, successful = bool(op[2]), bool(op[3]), bool(op[4])
+        gi = op[5] if len(op) > 5 else None
+        st = vc.read_status()
+        accept = bool(st and st["complete"] and st["submitter"] is None and not vc.live())
+        prev = self.outcomes_on_disk()
+        R = rerun_closure(sc, resubmit_selection(prev, failed, missing, successful))
+        path, groups = None, None
+        if gi is not None and 0 <= gi < len(sc.get("regroups", [])):
+            try:
+                path = vc.edited_groups_file(len(self.resubs), sc["regroups"][gi]["groups"], sc["regroups"][gi]["maxNodes"])
+                groups = sc["regroups"][gi]
+            except OSError:
+                path = None
+        if accept:
+            self.close_epoch()
+        vc.step_no += 1
+        p = vc.spawn_user("resubmit", failed, missing, successful, path)
+        self.resubs.append({"pid": p.pid, "accept": accept, "R": R, "prev": prev, "flags": (failed, missing, successful),
+                            "gi": gi if path else None, "times": self.row_times(), "at": len(vc.trace)})
+        if accept:
+            e = len(self.epoch_info)
+            self.epoch_info.append({"R": R, "prev": prev, "expected": reference_epoch(sc, prev, R, e), "pid": p.pid,
+                                    "groups": groups if groups else self.epoch_info[-1]["groups"],
+                                    "times": self.resubs[-1]["times"]})
+
+    def epoch_bounds(self):
+        """trace index ranges of the epochs: epoch e >= 1 starts at the e-th prepare_for_resubmission"""
+        tr = self.vc.trace
+        cuts = [0] + [i for i, e in enumerate(tr) if e[1] == "prepare"] + [len(tr)]
+        return [(cuts[i], cuts[i + 1]) for i in range(len(cuts) - 1)]
+
+    def close_epoch(self):
+        """the submission is complete: its results against the expected outcome of the epoch that just ended"""
+        sc = self.sc
+        e = len(self.epoch_info) - 1
+        info = self.epoch_info[e]
+        if info.get("closed"):
+            return
+        info["closed"] = True
+        props = ["C03"] + (["C13"] if e >= 1 else [])
+        n = len(sc["jobs"])
+
+        def bad(key, msg, extra=()):
+            for p in list(props) + list(extra):
+                self.bad(p, key, f"epoch {e}: {msg}")
+        bounds = self.epoch_bounds()
+        lo, hi = bounds[e] if e < len(bounds) else (len(self.vc.trace), len(self.vc.trace))
+        lost = any(x[1] in ("nodelost", "kill", "killin") for x in self.vc.trace[lo:hi])
+        results = self.load_results()
+        disk = self.outcomes_on_disk()
+        if results is None:
+            bad("results.absent", "the submission is complete but results.json cannot be read")
+            return
+        names = [jid(r["name"]) for r in results["results"]]
+        if len(names) != len(set(names)):
+            bad("results.duplicate_entry", f"results.json holds several entries for a job: {sorted(names)}")
+        rows = {}
+        for r in self.vc.read_rows():
+            rows.setdefault(r[1], []).append(r)
+        for k, rs in rows.items():
+            if len(rs) > 1:
+                bad("row.duplicate", f"job {k} has {len(rs)} results on disk: {[(r[0], r[2], r[3]) for r in rs]}")
+        have = {k for k, o in disk.items() if o[0] != "missing"}
+        if sorted(set(names)) != sorted(have):
+            bad("results.not_rows", f"results.json lists {sorted(set(names))} but results on disk exist for {sorted(have)}")
+        missing = sorted(jid(m) for m in results["missing_jobs"])
+        if missing != sorted(set(range(n)) - have):
+            bad("results.missing_wrong", f"missing_jobs={missing} but jobs without a result are {sorted(set(range(n)) - have)}")
+        for r in results["results"]:
+            k = jid(r["name"])
+            o = ("canceled", 1) if r["status"] == "canceled" else ("finished", r["return_code"])
+            if k in have and o != disk[k] and not (o[0] == "canceled" and disk[k][0] == "canceled"):
+                bad("results.altered", f"job {k}: summary says {o}, the recorded result is {disk[k]}")
+        summ = results["results_summary"]
+        tot = summ["num_successful"] + summ["num_failed"] + summ["num_canceled"] + summ["num_missing"]
+        if tot != n:
+            bad("results.tally", f"tallies sum to {tot}, there are {n} jobs")
+        # results of jobs that were not rerun are preserved
+        times = self.row_times()
+        for k in range(n):
+            if e >= 1 and k not in info["R"]:
+                if disk[k] != info["prev"][k]:
+                    bad("resubmit.row_changed", f"job {k} was not rerun but its result changed from {info['prev'][k]} to {disk[k]}")
+                elif k in info.get("times", {}) and times.get(k) != info["times"][k]:
+                    bad("resubmit.row_changed", f"job {k} was not rerun but the times of its result changed from {info['times'][k]} to {times.get(k)}")
+        if lost or info["expected"] is None:
+            return
+        exp = info["expected"]
+        for k in range(n):
+            if exp[k][0] == "missing":
+                continue
+            if disk[k][0] == "missing":
+                bad("results.missing", f"job {k} has no result although every batch ran to its end (expected {exp[k]})")
+            elif disk[k] != exp[k]:
+                extra = ["C04"] if "canceled" in (disk[k][0], exp[k][0]) else []
+                bad("results.classification", f"job {k}: result {disk[k]} but evaluating the graph in topological order "
+                    f"(rerun set {sorted(info['R'])}, others keep their results) gives {exp[k]}", extra)
+
+    def check_batch_against_group(self, e):
+        """C07 at system level: the batch just accepted by the scheduler against the group parameters in force
+        (after `resubmit-jobs -s FILE`: the edited ones, for the cut of the batch AND for both scripts)"""
+        from jadeenv import walltime_str
+        sc = self.sc
+        _, _, pid, bidx, hid, jl, gnames, acct = e
+        G = self.groups_in_force()
+        info = next((x[4] for x in reversed(self.vc.trace) if x[1] == "sbatchinfo" and x[2] == pid and x[3] == bidx), {})
+        if info.get("parse_error"):
+            self.bad("C07", "batch.unreadable", f"batch {bidx}: {info['parse_error']}")
+            return
+        gids = sorted({sc["jobs"][k]["group"] for k, _ in jl})
+        if not jl:
+            self.bad("C07", "batch.empty", f"batch {bidx} holds no job")
+            return
+        if len(gids) != 1:
+            self.bad("C07", "batch.mixed_groups", f"batch {bidx} holds jobs of groups {gids}")
+            return
+        gi = gids[0]
+        g = G[gi]
+        names = {k for k, _ in jl}
+        if g["timeBased"]:
+            total = sum(sc["jobs"][k]["est"] for k in names)
+            limit = g["wallSec"] / 60 * g["procs"]
+            if total > limit:
+                self.bad("C07", "batch.time_limit", f"batch {bidx} of group {gi}: estimates sum to {total} min, the limit in force is {limit} min")
+        elif len(jl) > g["batchSize"]:
+            self.bad("C07", "batch.size_limit", f"batch {bidx} of group {gi} holds {len(jl)} jobs, per-node batch size in force is {g['batchSize']}")
+        for k, bl in jl:
+            if bl and not (g["tryAdd"] and set(bl) <= names):
+                self.bad("C07", "batch.blocked_job", f"batch {bidx}: job {k} has unfinished blockers {sorted(bl)} (try-add-blocked in force: {g['tryAdd']})")
+        want = {"account": f"acct{gi}", "time": walltime_str(g["wallSec"]), "partition": g.get("partition"), "nprocs": g.get("procs")}
+        got = {k: info.get(k) for k in want}
+        if got != want:
+            self.bad("C07", "batch.group_params", f"batch {bidx} of group {gi} was submitted with {got}, the parameters in force are {want}")
+
+    def final_checks_resubmit(self):
+        vc, sc = self.vc, self.sc
+        tr = vc.trace
+        jobs = {j["id"]: j for j in sc["jobs"]}
+        st = vc.read_status()
+        complete = bool(st and st["complete"])
+        bounds = self.epoch_bounds()
+        by_pid = {r["pid"]: r for r in self.resubs}
+        # ---- each resubmit-jobs invocation: refused / rerun set / blockers written (C13)
+        for r in self.resubs:
+            preps = [e for e in tr if e[1] == "prepare" and e[2] == r["pid"]]
+            ex = next((e for e in tr if e[1] == "procexit" and e[2] == r["pid"]), None)
+            if not r["accept"]:
+                if preps:
+                    self.bad("C13", "resubmit.not_refused", "resubmit-jobs reset a submission that was not complete and idle")
+                continue
+            if ex is not None and ex[5]:
+                self.bad("C13", "resubmit.failed", f"resubmit-jobs {r['flags']} on a complete submission failed: {ex[5]}")
+            if len(preps) != 1:
+                if ex is not None and not ex[5]:
+                    self.bad("C13", "resubmit.not_prepared", f"resubmit-jobs on a complete submission reset it {len(preps)} times (exit {ex[4]})")
+                continue
+            if set(preps[0][3]) != r["R"]:
+                self.bad("C13", "resubmit.rerun_set", f"flags {r['flags']}, recorded outcomes {r['prev']}: rerun set {sorted(preps[0][3])}, "
+                         f"selected jobs and their dependents are {sorted(r['R'])}")
+            want = {k: tuple(sorted(set(jobs[k]["blockers"]) & r["R"])) for k in r["R"] if set(jobs[k]["blockers"]) & r["R"]}
+            if dict(preps[0][4]) != want and set(preps[0][3]) == r["R"]:
+                self.bad("C13", "resubmit.blockers_written", f"rerun set {sorted(r['R'])}: blockers written {dict(preps[0][4])}, "
+                         f"configured blockers inside the rerun set are {want}")
+        # ---- per epoch: one batch, one start, only rerun jobs, dependency order against THIS epoch's rows
+        by_idx = {}
+        for e, (lo, hi) in enumerate(bounds):
+            seg = tr[lo:hi]
+            if e == 0:
+                R, P = set(jobs), ["C01"]
+            else:
+                r = by_pid.get(seg[0][2]) if seg else None
+                R = r["R"] if r and r["accept"] else set(seg[0][3])
+                P = ["C01", "C13"]
+            placed, starts = {}, {}
+            rows_at = {}
+            for i, x in enumerate(seg):
+                if x[1] == "sbatch":
+                    _, _, pid, bidx, hid, jl, groups, acct = x
+                    if bidx in by_idx and by_idx[bidx] != (e, pid):
+                        for p in P:
+                            self.bad(p, "batch.id_reused", f"batch identifier {bidx} used in epoch {by_idx[bidx][0]} and again in epoch {e}")
+                    by_idx.setdefault(bidx, (e, pid))
+                    for k, _bl in jl:
+                        placed.setdefault(k, set()).add((pid, bidx))
+                elif x[1] == "row":
+                    rows_at.setdefault(jid(x[4][0]), i)
+                elif x[1] == "start":
+                    k = jid(x[4])
+                    starts[k] = starts.get(k, 0) + 1
+                    late = [b for b in jobs[k]["blockers"] if b in R and b not in rows_at]
+                    gone = [b for b in jobs[k]["blockers"] if b not in R and e >= 1 and
+                            self.epoch_info[min(e, len(self.epoch_info) - 1)]["prev"].get(b, ("missing",))[0] == "missing"]
+                    if late or gone:
+                        for p in ["C02"] + (["C13"] if e >= 1 else []):
+                            self.bad(p, "epoch.start_before_blocker", f"epoch {e}: job {k} started before its blockers {late + gone} "
+                                     f"had an outcome in this epoch (rerun set {sorted(R)})")
+            for k, keys in placed.items():
+                if len(keys) > 1:
+                    for p in P:
+                        self.bad(p, "job.two_batches", f"epoch {e}: job {k} was placed in batches {sorted(b for _, b in keys)}")
+            for k, c in starts.items():
+                if c > 1:
+                    for p in P:
+                        self.bad(p, "job.started_twice", f"epoch {e}: job {k} was started {c} times")
+            extra = sorted((set(placed) | set(starts)) - R)
+            if extra:
+                for p in P:
+                    self.bad(p, "epoch.unselected_job_rerun", f"epoch {e}: jobs {extra} were batched or started but are not in the rerun set {sorted(R)}")
+            mcs = [x for x in seg if x[1] == "markcomplete"]
+            if len(mcs) > 1:
+                self.bad("C05", "complete.twice", f"epoch {e}: the submission was marked complete {len(mcs)} times")
+            for m in mcs:
+                if not any(x[1] == "summary" and x[2] == m[2] and x[0] <= m[0] for x in seg):
+                    self.bad("C05", "complete.flag_before_summary", f"epoch {e}: the completion flag was set before the results summary was written")
+                if any(x[1] == "sbatch" and x[0] > m[0] for x in seg):
+                    self.bad("C05", "complete.sbatch_after", f"epoch {e}: a batch was submitted after the submission was complete")
+            lost = any(x[1] in ("nodelost", "kill", "killin") for x in seg)
+            if mcs and not lost:
+                canceled = {jid(x[4][0]) for x in seg if x[1] == "row" and x[4][2] == "canceled"}
+                for k in sorted(canceled & set(starts)):
+                    self.bad("C04", "cancel.wrong", f"epoch {e}: job {k} has a canceled result but was started")
+                notrun = sorted(k for k in R if not starts.get(k) and k not in canceled)
+                if notrun:
+                    for p in P:
+                        self.bad(p, "epoch.job_not_rerun", f"epoch {e}: jobs {notrun} of the rerun set {sorted(R)} were neither started nor canceled")
+        # ---- the last epoch
+        expected_epochs = 1 + sum(1 for r in self.resubs if r["accept"])
+        if not complete:
+            why = f"did not complete after {self.user_trysubmits} try-submit-jobs at quiescence (epoch {len(bounds) - 1})"
+            for p in ("C05", "C03") + (("C13",) if len(bounds) > 1 else ()):
+                self.bad(p, "progress.incomplete", f"the fault-free run {why}")
+        elif len(self.epoch_info) == expected_epochs and not vc.live():
+            self.close_epoch()
+        self.complete = complete
+        self.results = self.load_results()
+
     # ------------------------------------------------------------------ result
     def result(self):
         vc = self.vc
@@ -799,12 +1272,55 @@ class Run:
             "fault": self.fault_kind, "deadlocked": self.deadlocked, "style": self.style,
             "errors": [e[5] for e in vc.trace if e[1] == "procexit" and e[5]][:5],
             "unknown_ext": [e for e in vc.trace if e[1] == "unknown_ext"][:3],
+            "lockset": lockset_audit(self),
         }
         hist = translate(self)
         return {"model": None, "obs": obs, "hist": hist}
 
 
 SUBKINDS = ("submit", "trysubmit", "cancel")
+
+CLUSTER_FILES = ("cluster_config.json", "job_status.json", "config_version.txt", "job_status_version.txt")
+# sections in which the unchanged code mutates these files without the lock, by design:
+#   create  - Cluster.create of submit-jobs writes the two version files before anybody else knows the directory
+#   prepare - Cluster.prepare_for_resubmission ("Locking is not required": complete submission, role held)
+#   reset   - ResultsAggregator.clear_results_for_resubmission rewrites processed_results.csv (same situation)
+UNLOCKED_BY_DESIGN = {"create": CLUSTER_FILES, "prepare": CLUSTER_FILES, "reset": ("processed_results.csv",)}
+
+
+def lockset_audit(run):
+    """DESIGN 5.4: every mutation of a result file happens under that file's own lock, every mutation of the cluster
+    files under the cluster lock (the system model treats these sections as atomic).  Returns the breaches."""
+    if run.sc.get("local"):
+        return []            # one process, no protocol (the cluster files are deleted at the end, unlocked)
+    out = []
+    inside = {}              # pid -> stack of open sections
+    for e in run.vc.trace:
+        if e[1] == "sect":
+            st = inside.setdefault(e[2], [])
+            if e[4] == "begin":
+                st.append(e[3])
+            elif st:
+                st.pop()
+            continue
+        if e[1] != "mut":
+            continue
+        _, _, pid, base, how, holding = e
+        if base == "processed_results.csv" or (base.startswith("results_batch_") and base.endswith(".csv")):
+            need = base + ".lock"
+        elif base in CLUSTER_FILES:
+            need = "cluster_config.json.lock"
+        else:
+            continue
+        if need in holding:
+            continue
+        if any(base in UNLOCKED_BY_DESIGN.get(t, ()) for t in inside.get(pid, [])):
+            continue
+        kind = run.vc.procs[pid].kind
+        msg = f"lockset: {kind} process {pid} mutated {base} ({how}) without holding {need} (held: {list(holding)})"
+        if msg not in out:
+            out.append(msg)
+    return out[:5]
 
 
 def translate(run):
@@ -813,6 +1329,9 @@ def translate(run):
     if sc.get("local") or any(g.get("dryRun") for g in sc["groups"]):
         # local mode has no cluster protocol (one in-process JobRunner); dry-run hands nothing to the HPC
         return {"scn": None, "events": [], "expected": [], "final": {}}
+    if any(e[1] in ("prepare",) for e in vc.trace) or any(p.kind == "resubmit" for p in vc.procs.values()):
+        # the system model has no resubmission (C13 is a component-level proof): the oracles decide
+        return "skip"
     tr = vc.trace
     kinds = {p.pid: p.kind for p in vc.procs.values()}
     evs, exp = [], []
@@ -1002,6 +1521,9 @@ class SystemSuite(Suite):
         n = {"quick": 120, "thorough": 2500}[tier]
         if prop in ("C11", "C12"):
             n = {"quick": 200, "thorough": 4000}[tier]
+        extra = modes.count("resubmit")
+        if 0 < extra < len(modes):
+            n = n * len(modes) // (len(modes) - extra)      # the other modes keep their number of cases
         out = []
         for i in range(n):
             mode = modes[i % len(modes)]
@@ -1009,6 +1531,8 @@ class SystemSuite(Suite):
             if prop in ("C03", "C04", "C02") and mode in ("plain", "busy") and i % 3 == 2:
                 from suites import sysgen
                 sc = sysgen.cancel_chain(rng)        # structured family: failing root + flagged chains across batches
+            if mode == "resubmit" and prop == "C07":
+                sc["resub"]["regroupProb"] = 1.0             # C07: every resubmission passes an edited groups file (-s)
             out.append({"op": "system.trace", "sc": sc, "mode": mode, "seed": rng.randrange(1 << 30),
                         "breakStale": (i % 2 == 1) if mode == "faults" else False})
         return out
@@ -1029,7 +1553,7 @@ class SystemSuite(Suite):
 
     def model_from_result(self, case, result):
         h = result.get("hist")
-        if not h or case["sc"].get("local") or any(g.get("dryRun") for g in case["sc"]["groups"]):
+        if not h or h == "skip" or case["sc"].get("local") or any(g.get("dryRun") for g in case["sc"]["groups"]):
             return {"op": "system.trace", "scn": {"n": 0, "blockers": [], "flags": [], "rc": [], "maxNodes": 1}, "events": []}
         # fault-free modes: replay through stepP (the extra guards collectedAll / roundDone of Model/SystemPlain.lean)
         plain = case.get("mode") in ("plain", "busy") and not any(e["op"] in ("scancel", "markCanceled") or (e["op"] == "spawnSub" and e.get("isCancel")) for e in h["events"])
@@ -1041,13 +1565,15 @@ class SystemSuite(Suite):
     def diff(self, model, result):
         """differences between the model's replay and the observed history (empty = agreement)"""
         h = result.get("hist")
-        if not h or not model.get("outs") and not h["events"]:
-            return []
+        # lockset breaches: the atomic sections of the model no longer hold in the code (a broken tie, not an oracle hit)
+        lock = list((result.get("obs") or {}).get("lockset") or [])
+        if not h or h == "skip" or not model.get("outs") and not h["events"]:
+            return lock
         if len(h["events"]) == 0:
-            return []
+            return lock
         if "driver_error" in model:
             return [f"driver: {model['driver_error']}"]
-        d = []
+        d = lock
         if model["rejected"] is not None:
             i = model["rejected"]
             d.append(f"event {i} not accepted by the model: {h['events'][i]} (process at {model.get('procAt')}); previous: {h['events'][max(0, i - 4):i]}")
@@ -1112,6 +1638,14 @@ class SystemSuite(Suite):
             t.append("rounds>2")
         if o["errors"]:
             t.append("proc.error")
+        if o["events"].get("oddstate"):
+            t.append("squeue.odd_state_word")
+        if o["events"].get("prepare"):
+            t.append(f"resubmit.epochs={1 + o['events']['prepare']}")
+        if case["sc"].get("sharedHosts"):
+            t.append("hosts.shared")
+        if o.get("style") == "slowext":
+            t.append("style.slowext")
         return t
 
     def shrink(self, case):
